@@ -4,12 +4,15 @@ import workloads
 import resp
 from session import Session, ServerDied
 from client import Client
+import forms
+import formspaths
 
 LEVEL = 'model_checking'
 RULE = ('The redo-log relation is part of the spec (spec/Ferrous.tla AofApply/AofStep): re-executing, with the reference '
         'semantics, the frames the server appended while executing a request must reproduce the live dataset (values; TTL '
         'presence) after EVERY request. Histories over the write catalogue of all value types through direct commands, '
-        'MULTI/EXEC, several databases and blocked clients being served run on a server with appendonly yes; after each request '
+        'MULTI/EXEC, several databases and blocked clients being served, and the forms catalogue (lib/forms.py) through direct '
+        'dispatch, MULTI/EXEC, EVAL and SCRIPT LOAD + EVALSHA, run on a server with appendonly yes; after each request '
         'the new bytes of the file are parsed by the harness RESP reader into complete frames (a trailing partial frame is a '
         'rejection) and attached to the event; TLC maintains the replayed dataset next to the live one. At the end the whole '
         'file is also re-executed over TCP on an empty REAL server and both servers are dumped and compared. '
@@ -132,6 +135,103 @@ def history(ctx, i, gen_factory, n, dbs, txn):
     srv.kill()
 
 
+def forms_history(ctx, label, path, subset):
+    """The forms catalogue through one execution path on a server with appendonly yes (one history, no resets)."""
+    srv = ctx.new_server(name='aof', appendonly=True)
+    tr = ctx.new_trace(label)
+    tr.emit({'k': 'config', 'aof': 1})
+    tail = AofTail(os.path.join(srv.dir, 'appendonly.aof'))
+    s = Session(srv, tr)
+
+    def enrich(ev):
+        entries, partial = tail.new_entries()
+        ev['aof'] = [[list(x) for x in e] for e in entries]
+        if partial:
+            ev['aofpartial'] = 1
+    s.enrich = enrich
+    try:
+        formspaths.run_forms(s, path, 0, None, subset=subset, reset=False)
+        live = dump_all(srv.port)
+        fresh = ctx.new_server(name='aofreplay')
+        cl = Client(fresh.port, timeout=10.0)
+        for e in tail.all:
+            cl.call(e, 5.0)
+        cl.close()
+        rep = dump_all(fresh.port)
+        fresh.kill()
+        tr.emit({'k': 'aofreplay', 'ok': 1 if rep == live else 0, 'entries': len(tail.all), 'detail': ''})
+    except ServerDied:
+        pass
+    s.close_all()
+    ctx.validate(tr, label=label)
+    ctx.extra_cov['aof_entries'] = ctx.extra_cov.get('aof_entries', 0) + len(tail.all)
+    srv.kill()
+
+
+def script_flows(ctx):
+    """Scripts of several statements on a server with appendonly yes: effects in execution order, effects before an
+    error persist and are logged, random outcomes inside scripts, several keys, a script that writes nothing."""
+    import luadsl as L
+    srv = ctx.new_server(name='aof', appendonly=True)
+    tr = ctx.new_trace('script-flows')
+    tr.emit({'k': 'config', 'aof': 1})
+    tail = AofTail(os.path.join(srv.dir, 'appendonly.aof'))
+    s = Session(srv, tr)
+
+    def enrich(ev):
+        entries, partial = tail.new_entries()
+        ev['aof'] = [[list(x) for x in e] for e in entries]
+        if partial:
+            ev['aofpartial'] = 1
+    s.enrich = enrich
+    lit = lambda *a: [L.arg_lit(x) for x in forms.B(*a)]
+    call = lambda *a, **kw: L.call(lit(*a), **kw)
+    flows = [
+        [call('SET', 'a', '1'), call('INCR', 'kl'), call('SET', 'b', '2')],                       # aborted after the first write
+        [call('SET', 'a', '1'), call('INCR', 'kl', pcall=True), call('SET', 'b', '2', ret=1)],    # pcall continues
+        [call('SPOP', 'kS'), call('SPOP', 'kS', '2'), call('SADD', 'kS', 'z'), call('SCARD', 'kS', ret=1)],
+        [call('XADD', 'kx', '7-1', 'f', 'v'), call('XDEL', 'kx', '1-1'), call('XADD', 'kx', '*', 'g', 'w', ret=1)],      # auto id: only in the returning call (the spec learns the id from the reply)
+        [call('LPUSH', 'kl', 'x'), call('RPOP', 'kl'), call('LPOP', 'kl'), call('RENAME', 'kl', 'kl2'), call('LRANGE', 'kl2', '0', '-1', ret=1)],
+        [call('GET', 'ks'), call('EXISTS', 'ks', ret=1)],                                          # reads only
+        [call('SET', 'ks', 'v', 'EX', '100'), call('EXPIRE', 'kh', '100'), call('PERSIST', 'kt'), call('TTL', 'kt', ret=1)],
+        [call('DEL', 'ks', 'kl', 'nokey'), call('FLUSHDB'), call('SET', 'only', '1'), call('DBSIZE', ret=1)],
+        [call('ZADD', 'kz', '5', 'e'), call('ZPOPMIN', 'kz'), call('ZINCRBY', 'kz', '2', 'b'), call('ZRANGE', 'kz', '0', '-1', 'WITHSCORES', ret=1)],
+        [call('HSET', 'kh', 'n', '1'), call('HINCRBY', 'kh', 'n', '5'), call('HDEL', 'kh', 'f', 'g', 'n'), call('EXISTS', 'kh', ret=1)],
+    ]
+    n = 0
+    try:
+        for db in (0, 2):
+            for bysha in (False, True):
+                for prog in flows:
+                    for cid in list(s.clients):
+                        s.close(cid)
+                    c = s.open()
+                    s.cmd(c, [b'FLUSHALL'])
+                    if db:
+                        s.cmd(c, [b'SELECT', str(db).encode()])
+                    for p in forms.PRE:
+                        s.cmd(c, p)
+                    formspaths.eval_prog(s, c, prog, [], [], bysha)
+                    if c in s.clients:
+                        workloads.dump_db(s, c)
+                    n += 1
+        live = dump_all(srv.port)
+        fresh = ctx.new_server(name='aofreplay')
+        cl = Client(fresh.port, timeout=10.0)
+        for e in tail.all:
+            cl.call(e, 5.0)
+        cl.close()
+        rep = dump_all(fresh.port)
+        fresh.kill()
+        tr.emit({'k': 'aofreplay', 'ok': 1 if rep == live else 0, 'entries': len(tail.all), 'detail': ''})
+    except ServerDied:
+        pass
+    s.close_all()
+    ctx.validate(tr, label='script-flows')
+    srv.kill()
+    return n
+
+
 class AofWrites(workloads.Pool):
     """Write-heavy traffic over all value types on a few keys (faithful and known-unfaithful commands alike)."""
 
@@ -168,7 +268,18 @@ def run(ctx):
     n = 3 if ctx.quick else 24
     for i in range(n):
         history(ctx, i, AofWrites, 250 if ctx.quick else 800, dbs=(i % 3 == 1), txn=(i % 3 == 2))
-    ctx.extra_cov['distinct_cases'] = n
+    F = forms.FORMS
+    if ctx.quick:
+        forms_history(ctx, 'forms-direct', 'direct', F[ctx.seed % 2::2])
+        forms_history(ctx, 'forms-multi', 'multi', F[(ctx.seed + 1) % 2::2])
+        forms_history(ctx, 'forms-script', 'script-lit', F[ctx.seed % 3::3])
+        forms_history(ctx, 'forms-sha', 'script-sha', F[(ctx.seed + 1) % 3::3])
+    else:
+        for path in ('direct', 'multi', 'script-lit', 'script-keys', 'script-pcall', 'script-sha'):
+            forms_history(ctx, 'forms-' + path, path, F)
+    nf = script_flows(ctx)
+    ctx.extra_cov['script_flows'] = nf
+    ctx.extra_cov['distinct_cases'] = n + (4 if ctx.quick else 6) + nf
 
 
 def replay(ctx, path):
